@@ -41,6 +41,19 @@ def build_pool(lang, specs, col=None):
     """specs: list of {'seed','switches','limits'} -> list of (label, program)."""
     pool = []
     for sp in specs:
+        if 'handmade_seed' in sp:
+            # hand-shaped programs (vlib/handprog.py): nested functions with up to 5 parameters and varargs, explicit
+            # type arguments, recursive functions - shapes the generator reaches rarely or (arity > 3) never
+            case = pg.hand_case(lang, seed=sp['handmade_seed'])
+            pool.append(('H:%d' % sp['handmade_seed'], case.program))
+            try:
+                e = pg.clone(case.program)
+                pg.erase(e, lang)
+                pool.append(('HE:%d' % sp['handmade_seed'], e))
+            except Exception:
+                if col is not None:
+                    col.feature('pool_stage_failed')
+            continue
         if 'fixture' in sp:
             p = load_fixture(sp['fixture'], lang)
             if p is not None:
@@ -182,6 +195,8 @@ class Session:
             col.feature('translations', sum(1 for o in ops if o[0] != 'P'))
             if any(o[0] == 'T' and o[2] != self.lang for o in ops):
                 col.feature('histories_with_cross_language')
+            if any(self.pool[o[1]][0][0] == 'H' for o in ops if o[0] != 'P'):
+                col.feature('histories_with_handmade_program')
             if any(self.pool[o[1]][0].startswith('fixture') for o in ops if o[0] != 'P'):
                 col.feature('histories_with_fixture_program')
             if any(self.pool[o[1]][0][0] in 'EO' for o in ops if o[0] != 'P'):
@@ -220,6 +235,8 @@ def pool_specs(col, quick):
         specs[-2]['small_words'] = True
     for f in ('program1', 'program2', 'program3', 'program4', 'program5', 'program6'):
         specs.append({'fixture': f})
+    for j in range(3 if quick else 6):
+        specs.append({'handmade_seed': rnd.randrange(2 ** 31)})
     return specs
 
 
